@@ -399,13 +399,14 @@ static std::string do_req(std::vector<std::string> const &w)
 		if(slash+1>=w.size()) return "bad-op";
 	}
 	std::string presented,presented2;
-	if(!resolve_cookie(b,w[3],presented)) return "bad-op";
-	if(two && !resolve_cookie(b,w[slash+1],presented2)) return "bad-op";
 	std::vector<op> ops,ops2;
 	if(!parse_ops(w,4,slash,ops)) return "bad-op";
 	if(two && !parse_ops(w,slash+2,w.size(),ops2)) return "bad-op";
+	if(!resolve_cookie(b,w[3],presented)) return "bad-op";
 	jar &j=jars[b];
 	if(w[3]!="jar") j.cookie=presented;
+	// the second cookie is resolved against the jars as they are once the first one is installed
+	if(two && !resolve_cookie(b,w[slash+1],presented2)) return "bad-op";
 	if(two && w[slash+1]!="jar") j.cookie=presented2;
 	std::vector<set_cookie_call> out;
 	adapter a,a2;
